@@ -184,5 +184,17 @@ def run_for(ctx, pid, do_mc=True):
     ev = next((e for e in evs if nontrivial(e)), evs[0])
     ctx.sample(dict(kind='decoder program and real tree', program=describe(ev),
                     tree=[(n['name'], n['kind'], n['start'], n['len'], n['idx']) for n in ev['nodes']]))
+    # large trees (1000..5000 leaves) with skipped and re-read bits: size-dependent paths; judged by harness/ref
+    bp = os.path.join(ctx.build, 'tree_ev_big.ndjson')
+    ctx.run([ctx.go_build('tree'), 'bigprog', str(400 if ctx.tier == 'thorough' else 60), bp], check=True, timeout=1800)
+    big = vlib.read_ndjson(bp)
+    for e in big:
+        if e['panic']:
+            ctx.finding('tree.panic_escapes_decode', 'big program: %s; %s' % (e['panic'][:160], e['what']), e)
+        for sig in (e['refwhy'], e['refgap']):
+            if sig != 'ok' and sig.startswith(pref):
+                ctx.finding(sig if sig.startswith('gaps.merge_slack') else sig + ':big_tree', e['what'], e)
+    ctx.cov['big_trees'] = dict(programs=len(big), nodes=sum(e['nnodes'] for e in big))
+    ctx.cov['evaluations'] += len(big)
     binding_demo(ctx, evs)
     return evs
